@@ -190,3 +190,32 @@ def node_kind_matrix():
 
 def dedup(nodes):
     return list({enc(n): n for n in nodes}.items())
+
+
+def repeated_subterms():
+    """one sub-expression occurring TWICE in a filter, in every pair of operand contexts (parent operator x side), so that the two
+    occurrences need different parenthesisation — state a printer keeps per node between the two visits shows here and nowhere else"""
+    ar = [ast.Add, ast.Sub, ast.Mult, ast.Div, ast.Mod]
+    out = []
+    subs = [ast.BinOp(o(), I("i1"), I("i2")) for o in ar] + [ast.UnaryOp(ast.USub(), I("i1"))]
+    for s in subs:
+        for o1 in ar:
+            for o2 in ar:
+                for l1 in (True, False):
+                    for l2 in (True, False):
+                        A = ast.BinOp(o1(), s, I("i3")) if l1 else ast.BinOp(o1(), I("i3"), s)
+                        B = ast.BinOp(o2(), s, I("i3")) if l2 else ast.BinOp(o2(), I("i3"), s)
+                        out.append(ast.Compare(ast.Lt(), A, B))
+        out.append(ast.Compare(ast.Lt(), s, ast.BinOp(ast.Mult(), s, I("i3"))))
+    cmp = lambda a, b: ast.Compare(ast.Eq(), I(a), ast.Integer(b))
+    p, q, r = cmp("i1", "1"), cmp("i2", "2"), cmp("i3", "3")
+    bsubs = [ast.BoolOp(ast.Or(), p, q), ast.BoolOp(ast.And(), p, q), ast.UnaryOp(ast.Not(), p), p, I("b1")]
+    bctx = [lambda s: ast.BoolOp(ast.And(), s, r), lambda s: ast.BoolOp(ast.And(), r, s), lambda s: ast.BoolOp(ast.Or(), s, r),
+            lambda s: ast.BoolOp(ast.Or(), r, s), lambda s: ast.UnaryOp(ast.Not(), s), lambda s: ast.Compare(ast.Eq(), s, ast.Boolean("true")),
+            lambda s: ast.Compare(ast.NotEq(), ast.Boolean("false"), s), lambda s: s]
+    for s in bsubs:
+        for c1 in bctx:
+            for c2 in bctx:
+                for top in (ast.And, ast.Or):
+                    out.append(ast.BoolOp(top(), c1(s), c2(s)))
+    return out
